@@ -30,6 +30,10 @@
 //    typed:  typed_array<int32_t> | unique_array<int32_t> | pointer_array<int> {copy, =, insert, set, get, resize, reserve, detach,
 //            compact, swap, unused, offset} against std::vector<T>;
 //    map:    map<int32_t,int32_t> {set, append, get, values, copy} against an ordered vector of pairs.
+//    refs:   reference_array<T> | item_array<T> of counted objects (round 5): grown across the 64/192/320-byte capacity steps,
+//            shared (=, copy), modified (insert/append, resize); NoCopy flag kept, writes through a shared handle refused.
+// Round 5: user flags of a buffer (NoCopy, other user bits) are modelled per handle and must survive every operation
+//    (flag-lost / flag-gained); a shared NoCopy buffer with data is never copied (nocopy-copied).
 #include "vp.hpp"
 
 #include "mpt_c.hpp"
@@ -54,6 +58,7 @@ struct Handle {
   CObj<slice> sl;                 // array handles use the array part only
   CObj<encode_array> enc;
   std::vector<uint8_t> m;         // model: array/encode = whole content, slice = the window
+  uint32_t uf = 0;                // model: user flags of the buffer (creation flags without Immutable, which a copy clears)
   array *arr() { return kind == KEnc ? &enc.get()->_d : static_cast<array *>(sl.get()); }
   CBuf *buf() { return cbuf(arr()); }
 };
@@ -80,6 +85,9 @@ struct World {
   std::string tagbuf;
   struct Frozen { CBuf *b; std::vector<uint8_t> bytes; };
   std::vector<Frozen> frozen;     // buffers created with BufferImmutable and their content at that time
+  int lp_i = -1;                  // last pre(): target, its buffer, and whether that was a shared NoCopy buffer with content
+  CBuf *lp_b = 0;
+  bool lp_ncs = false;
 
   explicit World(Ctx &cc) : c(cc) {}
 
@@ -103,6 +111,7 @@ struct World {
     CBuf *b = h[i].buf();
     Pre p = {sharers(b) > 1, b && (flags(b) & BufferImmutable), grow && b && b->used, false};  // "at capacity": existing data had to move
     for (int j = 0; j < NH; j++) if (j != i && h[j].buf()) p.others = true;
+    lp_i = i; lp_b = b; lp_ncs = b && (flags(b) & BufferNoCopy) && sharers(b) > 1 && (h[i].kind == KSlice ? h[i].sl->_len : b->used);   // data the call would have to copy
     return p;
   }
   void wrote(const Pre &p) {
@@ -180,6 +189,26 @@ struct World {
       read(i, got, op);
       if (got != h[i].m) mismatch(refused ? "refused-changed" : i == target ? "target-mismatch" : "other-changed", op, target, i, got);
     }
+    // the content of a shared buffer flagged NoCopy cannot be copied ("block copy of data", ENOTSUP), at any size:
+    // a successful call must not leave the handle with another buffer that holds data
+    if (!refused && lp_i == target && lp_ncs) {
+      CBuf *nb = h[target].buf();
+      VP_CHECK(c, !(nb && nb != lp_b && nb->used), tag("nocopy-copied", op), "%s on h%d succeeded with a new buffer of %zu bytes although the handle shared a NoCopy buffer with data", op, target, nb ? nb->used : 0);
+    }
+    lp_i = -1;
+    // user flags are part of the buffer's identity: they survive every reallocation (growth, detach, reserve);
+    // only Immutable is documented to be cleared on a copy, and it is never gained
+    for (int i = 0; i < NH; i++) {
+      CBuf *b = h[i].buf();
+      if (!b) continue;
+      uint32_t fl = flags(b) & BufferFlagsUser;
+      VP_CHECK(c, (fl & ~(uint32_t)BufferImmutable) == h[i].uf, tag("flag-lost", op), "after %s on h%d: the buffer of h%d has user flags %#x, the array was created with %#x", op, target, i, fl, h[i].uf);
+      if (fl & BufferImmutable) {
+        bool known = false;
+        for (auto &f : frozen) if (f.b == b) known = true;
+        VP_CHECK(c, known, tag("flag-gained", op), "after %s on h%d: the buffer of h%d is flagged immutable but was not created so", op, target, i);
+      }
+    }
     // a buffer flagged immutable never changes while a handle still holds it
     for (size_t k = 0; k < frozen.size();) {
       CBuf *b = frozen[k].b;
@@ -233,6 +262,7 @@ struct World {
     }
     x.kind = KArray;
     x.m.clear();
+    x.uf = 0;
     verify(op, i, false);
   }
 
@@ -401,6 +431,7 @@ struct World {
     c.logf("    = %d", r);
     if (r >= 0) {
       if (s >= 0) x.m = h[s].m; else x.m.clear();
+      x.uf = s >= 0 ? h[s].uf : 0;
       if (s < 0) { x.sl->_off = x.sl->_len = 0; x.kind = KArray; }
       if (s >= 0 && sb) c.label(!b ? "clone:share" : sb == b ? "clone:same" : "clone:replace");
       if (s >= 0 && !sb) c.label(b ? "clone:from-empty-over-content" : "clone:from-empty");
@@ -412,6 +443,7 @@ struct World {
   void op_reduce() {
     int i = pick_array(true);
     c.logf("  mpt_array_reduce(h%d)   [%s]", i, desc(i).c_str());
+    pre(i, false);
     size_t r = mpt_array_reduce(h[i].arr());
     c.logf("    = %zu", r);
     outcome("reduce", true);
@@ -539,6 +571,7 @@ struct World {
     c.logf("    = %d", r);
     if (r >= 0) {
       x.kind = KSlice;
+      x.uf = h[s].uf;
       x.sl->_off = off;
       x.sl->_len = len;
       x.m.assign(h[s].m.begin() + off, h[s].m.begin() + off + len);
@@ -612,6 +645,7 @@ struct World {
     static const int kFlags[] = {0, BufferImmutable, BufferNoCopy, BufferImmutable | BufferNoCopy};
     int fl = kFlags[c.weighted({3, 2, 2, 1})];
     size_t want = c.near({0, 64, 192}, 300);
+    if (want % 4 == 3) fl |= 0x40;   // some other user flag (derived from an existing draw): stored and inherited like NoCopy
     CBuf *b = reinterpret_cast<CBuf *>(_mpt_buffer_alloc(want, fl));
     VP_CHECK(c, b, "alloc-failed", "_mpt_buffer_alloc(%zu, %#x) returned NULL", want, fl);
     VP_CHECK(c, b->size >= want && !b->used, "alloc-size", "_mpt_buffer_alloc(%zu) returned size %zu used %zu", want, b->size, b->used);
@@ -623,10 +657,11 @@ struct World {
     b->used = n;
     cbuf(x.arr()) = b;
     x.m = d;
+    x.uf = (uint32_t)fl & ~(uint32_t)BufferImmutable;
     for (size_t k = 0; k < frozen.size();) { if (frozen[k].b == b) frozen.erase(frozen.begin() + k); else ++k; }
     if (fl & BufferImmutable) frozen.push_back(Frozen{b, d});
     c.logf("  h%d := _mpt_buffer_alloc(%zu, flags=%#x) content %s, %zu bytes %s", i, want, fl, tname(ft), n, hex(d.data(), d.size(), 8).c_str());
-    c.label(fl == 0 ? "seed:plain" : (fl & BufferImmutable) ? "seed:immutable" : "seed:nocopy");
+    c.label(!(fl & 3) ? "seed:plain" : (fl & BufferImmutable) ? "seed:immutable" : "seed:nocopy");
     verify("seed", i, false);
   }
 
@@ -1041,7 +1076,7 @@ struct CxxBytes {
         } break;
         case 8: {  // += content of another array
           const array::content *src = a[j]->data();
-          if (!src || i == j) { c.label("cxx-skip:+=content"); break; }
+          if (!src || i == j) { c.label("cxx-skip"); break; }
           std::vector<uint8_t> want = m[i];
           want.insert(want.end(), m[j].begin(), m[j].end());
           c.logf("  a%d += *a%d.data()   [%s, %s]", i, j, desc(i).c_str(), desc(j).c_str());
@@ -1052,7 +1087,7 @@ struct CxxBytes {
           outcome("+=content", done); verify("+=content", i, !done);
         } break;
         case 9: {  // a = slice
-          if (!s) { c.label("cxx-skip:=slice"); break; }
+          if (!s) { c.label("cxx-skip"); break; }
           c.logf("  a%d = slice   [%s, window %zu bytes]", i, desc(i).c_str(), sm.size());
           writing(i);
           x = *s;
@@ -1095,7 +1130,7 @@ struct CxxBytes {
           c.label("cxx-ok:slice"); verify("slice", NA, false);
         } break;
         case 13: {  // shift
-          if (!s) { c.label("cxx-skip:shift"); break; }
+          if (!s) { c.label("cxx-skip"); break; }
           bool neg = c.chance(96);
           long n = neg ? -(long)c.near({0, 1, sfront.size(), sfront.size() + 1}, 300) : (long)c.near({0, 1, sm.size(), sm.size() + 1}, 300);
           bool must = neg ? (size_t)-n > sfront.size() : (size_t)n > sm.size();
@@ -1108,7 +1143,7 @@ struct CxxBytes {
           outcome("shift", r); verify("shift", NA, !r);
         } break;
         case 14: {  // trim
-          if (!s) { c.label("cxx-skip:trim"); break; }
+          if (!s) { c.label("cxx-skip"); break; }
           bool neg = c.chance(96);
           long n = neg ? -(long)c.near({0, 1, sback.size(), sback.size() + 1}, 300) : (long)c.near({0, 1, sm.size(), sm.size() + 1}, 300);
           bool must = neg ? (back_known && (size_t)-n > sback.size()) : (size_t)n > sm.size();
@@ -1124,7 +1159,7 @@ struct CxxBytes {
           outcome("trim", r); verify("trim", NA, !r);
         } break;
         default: {  // slice write
-          if (!s) { c.label("cxx-skip:write"); break; }
+          if (!s) { c.label("cxx-skip"); break; }
           size_t size = c.choose<size_t>({1, 1, 1, 2, 4, 8}), nblk = c.near({0, 1, 2, 64 / size, 192 / size}, 300 / size);
           std::vector<uint8_t> d = pattern(nblk * size);
           c.logf("  slice.write(%zu, %s, %zu)   [window %zu]", nblk, hex(d.data(), d.size(), 8).c_str(), size, sm.size());
@@ -1198,11 +1233,23 @@ struct CxxTyped {
                show(m[i]).c_str());
       }
     }
+    if (Kind == TUnique) {
+      // a unique_array lives in a NoCopy buffer (buffer::create_unique) at every size, and the elements of one that
+      // is shared cannot be copied: a write through such a handle is refused
+      VP_CHECK(c, !(wsh && !refused), vtag("nocopy-copied", (std::string(name) + "." + op).c_str()).c_str(), "%s on a%d succeeded although its no-copy buffer was shared with another array", op, target);
+      for (int i = 0; i < NA; i++) {
+        buffer *d = a[i]->_ref.instance();
+        VP_CHECK(c, d && (d->get_flags() & BufferNoCopy), vtag("flag-lost", (std::string(name) + "." + op).c_str()).c_str(), "after %s on a%d: the buffer of a%d (%ld elements) has flags %#x, NoCopy is gone", op, target, i,
+                 a[i]->length(), d ? d->get_flags() : 0u);
+      }
+    }
+    wsh = false;
     if (c.verbose()) { std::string l; for (int i = 0; i < NA; i++) l += " a" + std::to_string(i) + "=" + show(m[i]); c.logf("     %s", l.c_str()); }
   }
-  void outcome(const char *op, bool ok) { c.label((std::string(ok ? "cxx-ok:" : "cxx-refused:") + name + "." + op).c_str()); }
+  bool wsh = false;   // a write is about to go through a handle that shares a buffer holding elements
+  void outcome(const char *op, bool ok) { c.label(ok ? (std::string("cxx-ok:") + name + "." + op).c_str() : (std::string("cxx-refused:typed.") + op).c_str()); }
   bool shares(int i) { for (int j = 0; j < NA; j++) if (j != i && a[j]->length() && a[j]->begin() == a[i]->begin()) return true; return false; }
-  void writing(int i) { if (shares(i)) { c.label("cxx-nt:write-while-shared"); c.nontrivial(); } }
+  void writing(int i) { if (shares(i)) { c.label("cxx-nt:write-while-shared"); c.nontrivial(); wsh = true; } }
   // model position of a possibly negative index (documented: negative counts from the end); -1 = outside
   static long mpos(long pos, size_t len) { if (pos < 0) pos += (long)len; return pos; }
 
@@ -1454,9 +1501,144 @@ struct CxxMap {
   }
 };
 
+
+// ---- reference_array<T> / item_array<T>: the no-copy arrays of managed references the library itself uses, created
+// through their own constructors; grown across the 64/192/320-byte capacity steps, then shared and modified ----------
+struct Obj {
+  static long live;
+  Obj() { ++live; }
+  ~Obj() { --live; }
+};
+long Obj::live = 0;
+typedef reference<Obj>::type RObj;
+
+bool ref_add(reference_array<RObj> &x, long pos, RObj *o) { return x.insert(pos, o); }
+bool ref_add(item_array<RObj> &x, long, RObj *o) { char id[24]; snprintf(id, sizeof id, "k%ld", x.length()); return x.append(o, id) != 0; }   // appends
+bool ref_inserts(const reference_array<RObj> &) { return true; }
+bool ref_inserts(const item_array<RObj> &) { return false; }
+
+template <typename Arr>
+struct CxxRef {
+  Ctx &c;
+  enum { NA = 3 };
+  Arr *a[NA];
+  std::vector<RObj *> m[NA];
+  const char *name;
+  size_t esize;
+
+  CxxRef(Ctx &cc, const char *n, size_t es) : c(cc), name(n), esize(es) { for (auto &x : a) x = 0; }
+
+  std::string tagn(const char *cls, const char *op) { return vtag(cls, (std::string(name) + "." + op).c_str()); }
+  bool shares(int i) { for (int j = 0; j < NA; j++) if (j != i && a[j]->length() && a[j]->begin() == a[i]->begin()) return true; return false; }
+  void verify(const char *op, int target, bool refused, bool wrote_shared) {
+    VP_CHECK(c, !(wrote_shared && !refused), tagn("nocopy-copied", op).c_str(), "%s on a%d succeeded although its no-copy buffer was shared with another array", op, target);
+    std::set<RObj *> alive;
+    for (int k = 0; k < NA; k++) {
+      int i = (target + 1 + k + NA + 1) % NA;
+      long n = a[i]->length();
+      bool same = n == (long)m[i].size();
+      for (long e = 0; same && e < n; e++) same = a[i]->begin()[e].instance() == m[i][e];
+      if (!same) c.fail(tagn(refused ? "refused-changed" : i == target ? "target-mismatch" : "other-changed", op).c_str(), "after %s on a%d: a%d reads %ld elements, the value model has %zu (or other objects)", op, target, i, n, m[i].size());
+      for (RObj *o : m[i]) if (o) alive.insert(o);
+      buffer *d = a[i]->_ref.instance();
+      VP_CHECK(c, d && (d->get_flags() & BufferNoCopy), tagn("flag-lost", op).c_str(), "after %s on a%d: the buffer of a%d (%ld elements, %zu bytes) has flags %#x, NoCopy is gone", op, target, i, n, (size_t)n * esize,
+               d ? d->get_flags() : 0u);
+    }
+    // every object some array still refers to is alive, every other one was released exactly once
+    VP_CHECK(c, Obj::live == (long)alive.size(), tagn("element-lifetime", op).c_str(), "after %s on a%d: %ld objects are alive, the arrays refer to %zu", op, target, Obj::live, alive.size());
+    if (c.verbose()) { std::string l; for (int i = 0; i < NA; i++) l += " a" + std::to_string(i) + "=" + std::to_string(m[i].size()) + (shares(i) ? "(shared)" : ""); c.logf("     %s  alive=%ld", l.c_str(), Obj::live); }
+  }
+  bool add(int i, long pos) {
+    RObj *o = new RObj;
+    bool r = ref_add(*a[i], pos, o);
+    if (!r) { o->unref(); return false; }
+    size_t p = ref_inserts(*a[i]) ? (size_t)pos : m[i].size();
+    if (m[i].size() < p) m[i].resize(p, 0);
+    m[i].insert(m[i].begin() + p, o);
+    return true;
+  }
+  void run() {
+    c.label("cxx:refarray");
+    c.logf("C++ API history: %s of counted objects (element size %zu)", name, esize);
+    Obj::live = 0;
+    for (int i = 0; i < NA; i++) a[i] = new Arr();
+    verify("create", -1, false, false);
+    size_t s1 = 64 / esize, s2 = 192 / esize, s3 = 320 / esize;
+    unsigned nops = 0;
+    while (c.more() && nops++ < 30) {
+      int i = (int)c.pick(NA), j = (int)c.pick(NA);
+      size_t len = m[i].size();
+      bool sh = shares(i) && len;
+      switch (c.weighted({6, 4, 5, 3, 3})) {
+        case 0: {  // grow to an element count at a capacity step
+          size_t n = c.near({s1, s1 + 1, s2, s2 + 1, s3, s3 + 1}, s3 + 4), added = 0;
+          c.logf("  a%d: append up to %zu elements   [%zu elements%s]", i, n, len, sh ? ", shared" : "");
+          bool r = true;
+          while (r && m[i].size() < n) { r = add(i, (long)m[i].size()); if (r) ++added; }
+          c.logf("    %zu appended%s", added, r ? "" : ", then refused");
+          if (added) { c.label("cxx-ref:grown"); if (len <= s1 && m[i].size() > s1) { c.label("cxx-ref:crossed-first-block"); c.nontrivial(); } }
+          if (sh) c.label(added ? "cxx-ref:shared-write-accepted" : "cxx-ref:shared-write-refused");
+          verify("append", i, !added, sh && added);
+        } break;
+        case 1: {  // single insert
+          long pos = (long)c.near({0, len, len + 1}, len + 3);
+          c.logf("  a%d.insert(%ld, object)   [%zu elements%s]", i, pos, len, sh ? ", shared" : "");
+          bool r = add(i, pos);
+          c.logf("    = %d", r);
+          if (sh) c.label(r ? "cxx-ref:shared-write-accepted" : "cxx-ref:shared-write-refused");
+          verify("insert", i, !r, sh && r);
+        } break;
+        case 2: {  // a = b: both refer to the same no-copy buffer
+          c.logf("  a%d = a%d", i, j);
+          *a[i] = *a[j];
+          m[i] = m[j];
+          if (m[i].size() > s1) { c.label("cxx-ref:shared-beyond-first-block"); c.nontrivial(); }
+          verify("assign", i, false, false);
+        } break;
+        case 3: {  // copy construction
+          c.logf("  a%d = %s(a%d)", i, name, j);
+          Arr *n = new Arr(*a[j]);
+          std::vector<RObj *> keep = m[j];
+          delete a[i];
+          a[i] = n;
+          m[i] = keep;
+          verify("copy", i, false, false);
+        } break;
+        default: {  // resize: shrinking releases the cut objects, growing adds empty references
+          long n = (long)c.near({0, len, len ? len - 1 : 0, len + 1, s1, s1 + 1}, s3 + 4);
+          c.logf("  a%d.resize(%ld)   [%zu elements%s]", i, n, len, sh ? ", shared" : "");
+          bool r = a[i]->resize(n);
+          c.logf("    = %d", r);
+          if (r) m[i].resize(n, 0);
+          if (sh) c.label(r ? "cxx-ref:shared-write-accepted" : "cxx-ref:shared-write-refused");
+          verify("resize", i, !r, sh && r && (size_t)n != len);
+        } break;
+      }
+    }
+    for (int i = 0; i < NA; i++) {
+      c.logf("  delete a%d", i);
+      delete a[i];
+      a[i] = new Arr();
+      m[i].clear();
+      verify("delete", i, false, false);
+    }
+    for (int i = 0; i < NA; i++) { delete a[i]; a[i] = 0; }
+  }
+};
+
 void run_cxx(Ctx &c) {
   // objects are abandoned when an oracle fails (see run)
-  switch (c.weighted({4, 2, 2, 2, 2})) {
+  // one byte: the 16 highest values select the scenario added later, every other value keeps its meaning (byte % 12)
+  unsigned byte = (unsigned)c.range(0, 255);
+  if (byte >= 240) {
+    if (byte & 1) { auto *w = new CxxRef<reference_array<RObj> >(c, "reference_array", sizeof(reference<RObj>)); w->run(); delete w; }
+    else { auto *w = new CxxRef<item_array<RObj> >(c, "item_array", sizeof(item<RObj>)); w->run(); delete w; }
+    return;
+  }
+  static const unsigned kW[] = {4, 2, 2, 2, 2};
+  unsigned r = byte % 12, sel = 0;
+  while (r >= kW[sel]) r -= kW[sel++];
+  switch (sel) {
     case 0: { CxxBytes *w = new CxxBytes(c); w->run(); delete w; } break;
     case 1: { auto *w = new CxxTyped<typed_array<int32_t>, int32_t, TTyped>(c, "typed_array"); w->run(); delete w; } break;
     case 2: { auto *w = new CxxTyped<unique_array<int32_t>, int32_t, TUnique>(c, "unique_array"); w->run(); delete w; } break;
